@@ -20,7 +20,9 @@ from vlib.common import Cond, PathLog
 from vlib.strsym import SymStr, _e, branch, ceq
 
 ID = "C12"
-UTILS = "/repo/src/inline_snapshot/_utils.py"
+from vlib.common import REPO_SRC
+
+UTILS = REPO_SRC + "/inline_snapshot/_utils.py"
 DICT = ["'''", '"""', "\n", " \n", "\\", "'", '"', " ", "\t", "\r"]
 
 
@@ -206,7 +208,7 @@ def run_chunk(shapes, kf_active):
     return res
 
 
-SOURCE_FILE = "/repo/src/inline_snapshot/_source_file.py"
+SOURCE_FILE = REPO_SRC + "/inline_snapshot/_source_file.py"
 
 
 def run_format_kernel(k):
